@@ -99,21 +99,22 @@ example : ∃ w, ParamsOk Ex.P0 ∧ HistWF Ex.opsB ∧ run Ex.P0 Ex.opsB (initWo
 
 -- ================================================================================================ interleaved histories
 
-/-- The directory when a flush has completed (its last step `delete_wal_segments` ran) in ANY interleaved history:
+/-- The directory when a flush has completed (`wal_flush` returned and the flush thread answered the requests it had
+    taken: step `flushAnswer`) in ANY interleaved history:
     no flush in flight; the ONLY log segments are those of the ingestion calls that returned since this flush froze the
     buffers (ids `cursor, cursor+1, …`, as many as such calls) — every segment the flush captured is gone; the
     accounted size is the size of exactly these segments; so if no call overlapped the flush there is no segment and
     the accounted size is zero; the catalogue file exists, its cursor is `earliest`, and for every table the partition
     files on disk are EXACTLY the files the catalogue file refers to (no file of a merged-away partition, no orphan). -/
 theorem C18_interleaved_clean (P : Params ν κ) (hP : ParamsOk P) (ops : List (IOp ν κ)) (hwf : IHistWF ops)
-    (iw : IWorld ν κ) (hrun : irun P (ops ++ [.flushGcWal]) = .ok iw) :
+    (iw : IWorld ν κ) (hrun : irun P (ops ++ [.flushAnswer]) = .ok iw) :
     iw.fl = none ∧
     iw.w.disk.wal.map (·.id) = List.range' iw.w.mem.cat.earliest (sinceFreeze ops) ∧
     iw.w.mem.walSize = (iw.w.disk.wal.map (·.bytes)).sum ∧
     (sinceFreeze ops = 0 → iw.w.disk.wal = [] ∧ iw.w.mem.walSize = 0) ∧
     ∃ mf, iw.w.disk.metaFile = some mf ∧ mf.cursor = iw.w.mem.cat.earliest ∧
       ∀ t, fileNames (iw.w.disk.parts t) = expectedFiles (mf.parts t) := by
-  have hwf' : IHistWF (ops ++ [.flushGcWal]) := by
+  have hwf' : IHistWF (ops ++ [.flushAnswer]) := by
     intro op hop
     rcases List.mem_append.mp hop with h | h
     · exact hwf op h
@@ -129,27 +130,26 @@ theorem C18_interleaved_clean (P : Params ν κ) (hP : ParamsOk P) (ops : List (
     simp only at hstep
     split at hstep
     · rename_i hst
-      have hmeta0 := ((hf0.flight f hfl).2.2.2.2 (Or.inr hst)).2
+      have hmeta0 := ((hf0.flight f hfl).2.2.2.2 (Or.inr (Or.inr hst))).2
       cases hstep
-      have hq : (⟨deleteWal iw0.w f.lo f.hi, none, iw0.pending, iw0.done ++ f.served⟩ : IWorld ν κ).fl = none := rfl
+      have hq : (⟨iw0.w, none, iw0.pending, iw0.done ++ f.served⟩ : IWorld ν κ).fl = none := rfl
       obtain ⟨pre, hd⟩ := (idurable_run P hP _ hwf' _ hrun).quiescent hq
       have hf := (frame_run P hP _ hwf' _ hrun).quiet hq
       rw [sinceFreeze_snoc] at hf
       simp only [sfStep] at hf
-      have hids : (deleteWal iw0.w f.lo f.hi).disk.wal.map (·.id) =
-          List.range' (deleteWal iw0.w f.lo f.hi).mem.cat.earliest (sinceFreeze ops) := by
+      have hids : iw0.w.disk.wal.map (·.id) = List.range' iw0.w.mem.cat.earliest (sinceFreeze ops) := by
         have := hd.wal.ids
         simp only [walIds] at this
         rw [this, hf]
         simp
       refine ⟨rfl, hids, hd.wal.size, ?_, ?_⟩
       · intro h0
-        have hnil : (deleteWal iw0.w f.lo f.hi).disk.wal = [] := by
+        have hnil : iw0.w.disk.wal = [] := by
           rw [h0] at hids
           simpa using hids
         exact ⟨hnil, by rw [hd.wal.size, hnil]; rfl⟩
-      · have hsome : (deleteWal iw0.w f.lo f.hi).disk.metaFile.isSome = true := by simpa [deleteWal] using hmeta0
-        cases hm : (deleteWal iw0.w f.lo f.hi).disk.metaFile with
+      · have hsome : iw0.w.disk.metaFile.isSome = true := hmeta0
+        cases hm : iw0.w.disk.metaFile with
         | none => rw [hm] at hsome; cases hsome
         | some mf =>
           refine ⟨mf, rfl, ?_, fun t => ?_⟩
@@ -197,8 +197,8 @@ theorem C18_no_stuck_ingest (P : Params ν κ) (hP : ParamsOk P) (ops : List (IO
       flushTriggered P maxWalFiles iwq ∧
       ∃ iw', istep P iwq (.flushBegin iwq.pending.length) = .ok iw' ∧ ¬ ingestWaits P iw' := by
     intro iwq hq hs
-    refine ⟨Or.inl (by rw [hs]; exact hwait), _, by simp only [istep, hq]; rfl, ?_⟩
-    simp [ingestWaits, freeze]
+    refine ⟨Or.inl (by rw [hs]; exact gate_implies_trigger _ _ hwait), _, by simp only [istep, hq]; rfl, ?_⟩
+    simp [ingestWaits, freeze, gate_open_at_zero]
   cases hfl : iw.fl with
   | none =>
     obtain ⟨h1, iw', h2, h3⟩ := key iw hfl rfl
@@ -207,6 +207,22 @@ theorem C18_no_stuck_ingest (P : Params ν κ) (hP : ParamsOk P) (ops : List (IO
     obtain ⟨iwq, h0, hq, hs, _⟩ := flight_completes P hP iw f fi hfi hd hfl
     obtain ⟨h1, iw', h2, h3⟩ := key iwq hq hs
     exact ⟨iwq, iw', h0, hq, h1, h2, h3⟩
+
+/-- The interleaved machine follows the source in the choices that only matter when calls overlap a flush
+    (`Gen/WalProtocol.lean`, regenerated from /repo by every check run): `enforce_wal_limit` takes the pending requests
+    BEFORE `wal_flush()` and answers the taken ones; the freeze block resets the accounted size before any storage call
+    of the tail; the trigger's other disjuncts are the request list and the file count.  (The two size comparisons are
+    not pinned here: the model USES the ones found in the source, and `C18_no_stuck_ingest` needs them to agree on the
+    boundary and to let an accounted size of 0 through.)  A source edit that changes one of these fails this obligation. -/
+theorem C18_machine_follows_source :
+    LM.Gen.WalProtocol.takeBeforeFlush = true ∧ LM.Gen.WalProtocol.answersTheTaken = true ∧
+    LM.Gen.WalProtocol.resetBeforeTail = true ∧
+    LM.Gen.WalProtocol.flushTriggerRest = "!pending_wal_flushes.is_empty()||too_many_wal_files" ∧
+    (∀ (P : Params ν κ) (iw : IWorld ν κ) (op : IOp ν κ),
+      istepVar false (!LM.Gen.WalProtocol.takeBeforeFlush) P iw op = istep P iw op) := by
+  refine ⟨by decide, by decide, by decide, by decide, fun P iw op => ?_⟩
+  have h : (!LM.Gen.WalProtocol.takeBeforeFlush) = false := by decide
+  rw [h]; exact istepVar_ff P iw op
 
 /-- What an answered force_flush guarantees, in ANY interleaved history.  A request is recorded as `q` = the id the next
     log segment would get at the moment the request was registered (every ingestion call that returned before has a
